@@ -13,7 +13,7 @@ import time
 
 VERIF = os.path.dirname(os.path.dirname(os.path.abspath(__file__)))
 REPO = os.environ.get("VERIF_REPO", "/repo")
-LEAN = os.path.join(VERIF, "lean")
+LEAN = os.environ.get("VERIF_LEAN", os.path.join(VERIF, "lean"))
 HARNESS = os.path.join(VERIF, "harness")
 EXTRACT = os.path.join(VERIF, "extract")
 CACHE = os.path.join(VERIF, ".cache")
@@ -53,6 +53,9 @@ def run(cmd, cwd=None, env=None, timeout=None, check=True, stdin=None, capture=T
 class Lock:
     def __init__(self, name):
         os.makedirs(CACHE, exist_ok=True)
+        if name.startswith("lean-") or name == "build-lean":
+            # one lock per Lean project directory (seed tests run on scratch copies of it)
+            name += "-" + hashlib.sha256(LEAN.encode()).hexdigest()[:8]
         self.path = os.path.join(CACHE, name + ".lock")
 
     def __enter__(self):
@@ -124,15 +127,19 @@ def build_model():
 
 
 def regenerate_tables():
-    """delete and re-extract Generated/Tables.lean from /repo's working tree"""
+    """delete and re-extract Generated/Tables.lean (finite tables) and Generated/Code/*.lean
+    (GoLite translation of the pure core and the keeper functions) from /repo's working tree"""
+    import shutil as _sh
     with Lock("build-extract"):
         out = os.path.join(LEAN, "Fundraising", "Generated", "Tables.lean")
+        code = os.path.join(LEAN, "Fundraising", "Generated", "Code")
         os.makedirs(os.path.dirname(out), exist_ok=True)
         os.makedirs(os.path.dirname(XBIN), exist_ok=True)
         run(["go", "build", "-o", XBIN, "."], cwd=EXTRACT, env=GOENV, timeout=1800)
         if os.path.exists(out):
             os.remove(out)
-        run([XBIN, "-repo", REPO, "-out", out], cwd=EXTRACT, env=GOENV, timeout=600)
+        _sh.rmtree(code, ignore_errors=True)
+        run([XBIN, "-repo", REPO, "-out", out, "-code", code], cwd=EXTRACT, env=GOENV, timeout=600)
         return out
 
 
